@@ -325,8 +325,10 @@ def uses_reference(nodes, names):
     declared for its filter and body only (not for the iterable, not for the else branch); a with statement's targets for its
     body only (the values are evaluated outside); the body of a set block / filter block and a nested macro / call block
     (parameters, defaults, body) are scopes of their own; `{% set x = e %}` evaluates e before it declares x; nested Block
-    nodes are not searched.  (Conditionals are not scopes: like the implementation, an assignment in a branch counts as
-    declared for what follows.)"""
+    nodes are not searched.  An assignment in one branch of an `if` is conditional: it declares the name for the rest of that
+    branch only (the other branches and what follows the endif may still read the body's own variable).  A nested macro
+    definition declares its NAME in the enclosing scope, an import / from-import its target(s); inside a nested macro / call
+    block caller, kwargs and varargs are that macro's own."""
     found = set()
 
     def walk(n, watched):
@@ -371,9 +373,29 @@ def uses_reference(nodes, names):
                 walk(c, inner)
             return
         if isinstance(n, (N.Macro, N.CallBlock)):
-            inner = set(watched)
-            for c in _children(n):
+            if isinstance(n, N.CallBlock):
+                walk(n.call, watched)
+            inner = set(watched) - set(SPECIAL)
+            for c in _children(n, ("args", "defaults", "body")):
                 walk(c, inner)
+            if isinstance(n, N.Macro):
+                watched.discard(n.name)
+            return
+        if isinstance(n, N.If):
+            walk(n.test, watched)
+            for branch in [list(n.body)] + [[e] for e in n.elif_] + [list(n.else_)]:
+                inner = set(watched)
+                for c in branch:
+                    walk(c, inner)
+            return
+        if isinstance(n, N.Import):
+            walk(n.template, watched)
+            watched.discard(n.target)
+            return
+        if isinstance(n, N.FromImport):
+            walk(n.template, watched)
+            for nm in n.names:
+                watched.discard(nm[1] if isinstance(nm, tuple) else nm)
             return
         for c in _children(n):
             walk(c, watched)
@@ -416,6 +438,15 @@ def uses_bodies():
             f"set {v}: body reads {v}": lambda v=v: N.AssignBlock(_nm(v, "store"), None, [_out(v)]),
             f"set {v}: body": lambda v=v: N.AssignBlock(_nm(v, "store"), None, [N.Output([N.TemplateData("x")])]),
             f"if c: {{{{ other }}}}": lambda v=v: N.If(_nm("c"), [_out("other")], [], []),
+            f"if c: set {v} = 1": lambda v=v: N.If(_nm("c"), [N.Assign(_nm(v, "store"), N.Const(1))], [], []),
+            f"if c: set {v} = 1 else: {{{{ {v} }}}}": lambda v=v: N.If(_nm("c"), [N.Assign(_nm(v, "store"), N.Const(1))], [], [_out(v)]),
+            f"if c: pass elif d: set {v} = 1 else: pass": lambda v=v: N.If(_nm("c"), [], [N.If(_nm("d"), [N.Assign(_nm(v, "store"), N.Const(1))], [], [])], [_out("other")]),
+            f"macro {v}()": lambda v=v: N.Macro(v, [], [], [N.Output([N.TemplateData("k")])]),
+            f"from lib import {v}": lambda v=v: N.FromImport(N.Const("lib"), [v], False),
+            f"from lib import q as {v}": lambda v=v: N.FromImport(N.Const("lib"), [("q", v)], False),
+            f"import lib as {v}": lambda v=v: N.Import(N.Const("lib"), v, False),
+            f"macro n(): {{{{ {v} }}}}": lambda v=v: N.Macro("n", [], [], [_out(v)]),
+            f"call w(): {{{{ {v} }}}}": lambda v=v: N.CallBlock(N.Call(_nm("w"), [], [], None, None), [], [], [_out(v)]),
         }
         for lab, mk in first.items():
             out.append((f"[{lab}; {{{{ {v} }}}}]", lambda mk=mk, v=v: [mk(), _out(v)]))
@@ -431,8 +462,10 @@ def uses_failure_class(label):
     lab = re.sub(r"caller|kwargs|varargs", "V", label)
     kinds = []
     for k, pat in (("for_target", "for V in"), ("for_body_set", "for x in [0]: set V"), ("with_target", "with V ="), ("with_body_set", "with x = 0: set V"),
-                   ("set_block_body", "set t: set V"), ("filter_block_body", "filter upper: set V"), ("value_before_target", "= V|list"), ("set_block_target", "set V: body reads V")):
-        if pat in lab:
+                   ("set_block_body", "set t: set V"), ("filter_block_body", "filter upper: set V"), ("value_before_target", "= V|list"), ("set_block_target", "set V: body reads V"), ("if_branch", "if c: set V"), ("if_branch", "elif d: set V"),
+                   ("macro_name", "macro V()"), ("import_target", "import V"), ("import_target", " as V"), ("nested_macro_own_special", "macro n(): {{ V }}"),
+                   ("nested_macro_own_special", "call w(): {{ V }}")):
+        if pat in lab and k not in kinds:
             kinds.append(k)
     return "+".join(kinds) or lab[:60]
 
@@ -443,7 +476,7 @@ class UsesDifferential(Task):
 
     def __init__(self):
         self.name = "C06.uses_special.differential"
-        self.bound_text = ("macro bodies of up to 4 statements built from 17 statement shapes (for / with / set / set block / filter block / nested macro / call block "
+        self.bound_text = ("macro bodies of up to 4 statements built from 26 statement shapes (for / with / if / set / set block / filter block / import / nested macro / call block "
                            "that declare or read a special name in a scope or evaluation order of their own) followed by a read, for caller, kwargs, varargs")
 
     def run(self, tier, seed):
@@ -493,6 +526,15 @@ USES_TEMPLATES = [
     ("{% macro m() %}{% for varargs in varargs %}{{ varargs }}{% endfor %}{% endmacro %}{{ m(1, 2) }}", "12", "for_target"),
     ("{% macro m() %}{% with x = 0 %}{% set kwargs = 0 %}{% endwith %}{{ kwargs }}{% endmacro %}{{ m(a=1) }}", "{'a': 1}", "with_body_set"),
     ("{% macro m() %}{% set varargs %}{{ varargs }}{% endset %}{{ varargs }}{% endmacro %}{{ m(1) }}", "(1,)", "set_block_target"),
+    ("{% macro m() %}{% if x %}{% set varargs = 1 %}{% else %}[{{ varargs }}]{% endif %}{% endmacro %}{{ m(5) }}", "[(5,)]", "if_branch"),
+    ("{% macro m() %}{% if x %}{% set kwargs = 1 %}{% endif %}[{{ kwargs }}]{% endmacro %}{{ m(z=5) }}", "[{'z': 5}]", "if_branch"),
+    ("{% macro m() %}{% if x %}{% set caller = 1 %}{% endif %}[{{ caller() }}]{% endmacro %}{% call m() %}c{% endcall %}", "[c]", "if_branch"),
+    ("{% macro m() %}{% macro kwargs() %}k{% endmacro %}{{ kwargs() }}{% endmacro %}{{ m(zz=1) }}", "TypeError: macro 'm' takes no keyword argument 'zz'", "macro_name"),
+    ("{% macro m() %}{% macro varargs() %}v{% endmacro %}{{ varargs() }}{% endmacro %}{{ m(1, 2) }}", "TypeError: macro 'm' takes not more than 0 argument(s)", "macro_name"),
+    ("{% macro m() %}{% from 'lib' import kwargs %}{{ kwargs() }}{% endmacro %}{{ m(zz=1) }}", "TypeError: macro 'm' takes no keyword argument 'zz'", "import_target"),
+    ("{% macro m() %}{% import 'lib' as varargs %}{{ varargs.kwargs() }}{% endmacro %}{{ m(1) }}", "TypeError: macro 'm' takes not more than 0 argument(s)", "import_target"),
+    ("{% macro m() %}{% macro n() %}{{ varargs }}{% endmacro %}{{ n(1) }}{% endmacro %}{{ m(2) }}", "TypeError: macro 'm' takes not more than 0 argument(s)", "nested_macro_own_special"),
+    ("{% macro m() %}{% macro n() %}{{ varargs }}{% endmacro %}{{ n(1) }}{% endmacro %}{{ m() }}", "(1,)", ""),
     ("{% macro m() %}{% set varargs = 0 %}{{ varargs }}{% endmacro %}{{ m() }}", "0", ""),
     ("{% macro m() %}{% set varargs = 0 %}{{ varargs }}{% endmacro %}{{ m(1) }}", "TypeError: macro 'm' takes not more than 0 argument(s)", ""),
 ]
@@ -500,7 +542,7 @@ USES_TEMPLATES = [
 
 def uses_replay(w=None):
     """the hunt inputs C06_5 / C06_6 (and their siblings) rendered natively"""
-    env = jinja2.Environment()
+    env = jinja2.Environment(loader=jinja2.DictLoader({"lib": "{% macro kwargs() %}K{% endmacro %}"}))
     cls = (w or {}).get("class") or ""
     probs = []
     for src, want, k in USES_TEMPLATES:
